@@ -3,6 +3,7 @@ package eng
 import (
 	"fmt"
 	"go/ast"
+	"go/token"
 	"go/types"
 	"sort"
 	"strings"
@@ -466,3 +467,82 @@ func (c *Ctx) MethodsOf(typeRef string) []*Fn {
 
 // KV prints a string map as "k: v, …" in key order.
 func KV(m map[string]string) string { return kvString(m) }
+
+// PolarityAgree: inside fnRef, wherever a destination name (assignment target, composite-literal
+// key, or — for a range loop — the targets assigned in its body) contains one of the words, every
+// name on the source side (right-hand side, value, ranged expression) that contains any of the
+// words contains the same one.  Catches positive/negative (first/last, min/max …) swaps in
+// field-by-field conversions.  min is the number of word-carrying sites confirmed by reading.
+func (c *Ctx) PolarityAgree(rule, fnRef string, words []string, min int) bool {
+	f := c.Fn(fnRef)
+	what := fmt.Sprintf("in %s every %s destination is filled from a source of the same kind", short(fnRef), strings.Join(words, "/"))
+	wordsIn := func(n ast.Node) map[string]bool {
+		out := map[string]bool{}
+		if n == nil {
+			return out
+		}
+		ast.Inspect(n, func(x ast.Node) bool {
+			if id, ok := x.(*ast.Ident); ok {
+				for _, w := range words {
+					if strings.Contains(id.Name, w) {
+						out[w] = true
+					}
+				}
+			}
+			return true
+		})
+		return out
+	}
+	sites := 0
+	var bad []string
+	check := func(dst, src ast.Node, pos token.Pos) {
+		d, s := wordsIn(dst), wordsIn(src)
+		if len(d) == 0 {
+			return
+		}
+		sites++
+		if len(d) > 1 {
+			return // a destination naming several kinds (e.g. a pair assignment) is not a single-kind site
+		}
+		for w := range s {
+			if !d[w] {
+				bad = append(bad, fmt.Sprintf("%s: destination %s filled from a %s source (%s)", c.P.Pos(pos), SortedKeys(d)[0], w, types.ExprString(src.(ast.Expr))))
+			}
+		}
+	}
+	ast.Inspect(f.Body, func(x ast.Node) bool {
+		switch s := x.(type) {
+		case *ast.AssignStmt:
+			if len(s.Lhs) == len(s.Rhs) {
+				for i := range s.Lhs {
+					check(s.Lhs[i], s.Rhs[i], s.Pos())
+				}
+			}
+		case *ast.KeyValueExpr:
+			if _, ok := s.Key.(*ast.Ident); ok {
+				check(s.Key, s.Value, s.Pos())
+			}
+		case *ast.RangeStmt:
+			ast.Inspect(s.Body, func(y ast.Node) bool {
+				if as, ok := y.(*ast.AssignStmt); ok {
+					for _, l := range as.Lhs {
+						check(l, s.X, as.Pos())
+					}
+				}
+				return true
+			})
+		}
+		return true
+	})
+	if sites < min {
+		c.Fail(rule, fnRef, what, c.P.Pos(f.Body.Pos()), fmt.Sprintf("%d site(s) found, %d confirmed by reading (rule instance vanished)", sites, min))
+		return false
+	}
+	if len(bad) > 0 {
+		sort.Strings(bad)
+		c.Fail(rule, fnRef, what, c.P.Pos(f.Body.Pos()), strings.Join(bad, "; "))
+		return false
+	}
+	c.Pass(rule, fnRef, what, fmt.Sprintf("%d sites", sites))
+	return true
+}
